@@ -428,6 +428,11 @@ func (symbol *compositeEntitySetSymbol) GetType() ast.NodeType {
 }
 
 func (symbol *compositeEntitySetSymbol) Eval(tx *bbolt.Tx, _ []byte) (FieldType, []byte) {
+	if symbol.cursor == nil {
+		// evaluated outside of a set iteration (e.g. a null test of a set function result): no current element,
+		// same answer as a plain set symbol gives
+		return 0, nil
+	}
 	return symbol.cursorLastF(tx, symbol.cursor.key)
 }
 
